@@ -960,6 +960,30 @@ async fn run_probe_v6(
     ))
 }
 
+/// Verification hooks (only with `--cfg iroh_verif`), re-exported by `crate::verif_hooks_netrep`.
+#[cfg(all(iroh_verif, not(wasm_browser)))]
+impl Client {
+    /// A client without relays and probes: only its report history is used.
+    pub(crate) fn verif_new(tls_config: rustls::ClientConfig) -> Self {
+        Client::new(
+            DnsResolver::new(),
+            RelayMap::empty(),
+            Options::new(tls_config),
+            Default::default(),
+        )
+    }
+
+    /// Calls [`Client::add_report_history_and_set_preferred_relay`].
+    pub(crate) fn verif_add_report_history(&mut self, r: &mut Report) {
+        self.add_report_history_and_set_preferred_relay(r);
+    }
+
+    /// Number of reports kept in the history.
+    pub(crate) fn verif_history_len(&self) -> usize {
+        self.reports.prev.len()
+    }
+}
+
 #[cfg(test)]
 mod test_utils {
     //! Creates a relay server against which to perform tests
